@@ -122,11 +122,13 @@ func (cm *CMap) parseCodeSpaceRange(content string) error {
 		return nil // No codespacerange section
 	}
 
-	endIdx := strings.Index(content[beginIdx:], "endcodespacerange")
+	// search behind the begin keyword: "begincodespacerange" ends with the letter
+	// "endcodespacerange" starts with, so the two may overlap in damaged data
+	endIdx := strings.Index(content[beginIdx+len("begincodespacerange"):], "endcodespacerange")
 	if endIdx == -1 {
 		return nil
 	}
-	endIdx += beginIdx
+	endIdx += beginIdx + len("begincodespacerange")
 
 	// Extract section content
 	section := content[beginIdx+len("begincodespacerange") : endIdx]
@@ -196,11 +198,13 @@ func (cm *CMap) parseBfChar(content string) error {
 		}
 		beginIdx += start
 
-		endIdx := strings.Index(content[beginIdx:], "endbfchar")
+		// search behind the begin keyword: "beginbfchar" ends with the letter
+		// "endbfchar" starts with, so the two may overlap in damaged data
+		endIdx := strings.Index(content[beginIdx+len("beginbfchar"):], "endbfchar")
 		if endIdx == -1 {
 			break
 		}
-		endIdx += beginIdx
+		endIdx += beginIdx + len("beginbfchar")
 
 		// Extract section content
 		section := content[beginIdx+len("beginbfchar") : endIdx]
@@ -290,11 +294,13 @@ func (cm *CMap) parseBfRange(content string) error {
 		}
 		beginIdx += start
 
-		endIdx := strings.Index(content[beginIdx:], "endbfrange")
+		// search behind the begin keyword: "beginbfrange" ends with the letter
+		// "endbfrange" starts with, so the two may overlap in damaged data
+		endIdx := strings.Index(content[beginIdx+len("beginbfrange"):], "endbfrange")
 		if endIdx == -1 {
 			break
 		}
-		endIdx += beginIdx
+		endIdx += beginIdx + len("beginbfrange")
 
 		// Extract section content
 		section := content[beginIdx+len("beginbfrange") : endIdx]
